@@ -4,32 +4,11 @@ import json, os, subprocess
 ROOT = os.path.dirname(os.path.dirname(os.path.abspath(__file__)))
 BASE_OFF = "cd /repo && go test -mod=mod -json -vet=off -count=1 -timeout 25m ./..."
 # id -> (level, technique, text, note, design_ref, engine)
-CHECKS = {
- "C06": ("exploration", "bounded-exhaustive enumeration on the real evaluator vs. big-integer reference evaluator",
-         "Every operator on every operand pair of a 49-value grid (all types, 64-bit boundaries, sets of every element type, ill-formed sets), all (a∘b)∘c arithmetic compositions over 14 boundary integers, and every operator sequence up to length 3/4 over a 28-symbol alphabet are evaluated by the library and compared with an independent math/big evaluator; panics are violations. The space is finite and enumerated completely, so the verdict is a coverage statement over that grid, not a sample.",
-         "Trusted: Go regexp/strings/math/big; the harness's transcription of the operator table. Values outside the grid are not covered.", "DESIGN.md §4-C06", "ssx"),
- "C05": ("exploration", "bounded-exhaustive enumeration of programs and fact orders on the real engine vs. reference least-fixpoint evaluator",
-         "Every rule with 1-2 body atoms over the 25-atom DL-small alphabet (3-atom bodies over 8 atoms), several head shapes, with/without an equality expression, is queried against every ordered list of up to 3-4 distinct ground facts in 15 constant domains (all term types, type-confusable pairs, set presentations); every single rule and ordered rule pair of a recursive alphabet is run to fixpoint on every subset of a 9-fact universe in two insertion orders. Results are compared as sets with an independent recursive-substitution evaluator. The space is finite and fully enumerated.",
-         "Trusted: internal/refdl (naive least fixpoint), internal/refexpr. Programs with 4+ body atoms, 3+ rules or arity>2 are outside the scope.", "DESIGN.md §4-C05", "ssx"),
- "C04": ("exploration", "bounded-exhaustive enumeration of authorization scenarios on the real authorizer vs. reference decision procedure",
-         "Four full products of small scenario alphabets (policy lists x truth assignments x check modes; checks per source x fact placement; fact placement x placed rules x probe checks; shared strings x expression kinds x check location) are authorized by the library and the outcome class (and the failed-check list) is compared with an independent implementation of the stated decision procedure over a reference least-fixpoint evaluator.",
-         "Trusted: internal/refdl.Decide and internal/refexpr. Only the stated fragment is generated (ground facts, range-restricted rules, error-free or uniformly failing expressions). Scenarios with 3+ rules, 3+ blocks or policy lists longer than 3 are outside the scope.", "DESIGN.md §4-C04", "ssx"),
- "C02": ("exploration", "bounded-exhaustive differential enumeration (token, appended block, authorizer) on the real authorizer",
-         "Every triple of a product of authority contents x appended blocks (all <=2-subsets of a 19-item adversarial alphabet) x authorizer contents with ordered policy lists is authorized twice, with and without the appended block; T+B accepted while T is refused is a violation. The product is finite and fully enumerated.",
-         "Differential oracle, no reference model. Blocks with 3+ items and policy lists longer than 2 are outside the scope. Signature checking is C01.", "DESIGN.md §4-C02", "ssx"),
- "C03": ("exploration", "bounded-exhaustive differential enumeration of token variants (block content kept/removed/check-free/emptied/swapped) on the real authorizer",
-         "For every block content X (<=2 of 16 fact/rule items), block position, 1-2 probes in every location (authorizer check, authority check, other block's check, allow/deny policy), the token variants with and without X and with the two blocks swapped are authorized and queried; outcome class, failed checks outside the block and a 6-rule Query panel (before and after Authorize) must coincide. The visibility of authority-level facts in blocks is decided by C04's S3 scope against the reference.",
-         "Differential oracle. The failed-check list is parsed from the error text. Tokens with 3+ later blocks are outside the scope.", "DESIGN.md §4-C03", "ssx"),
- "C12": ("exploration", "bounded-exhaustive differential enumeration of presentation variants (permutations, renamings, duplication, repetition) on the real authorizer",
-         "For every base scenario of a product of authorizer/authority/block contents, every permutation of every collection (facts, rules, checks, queries in a check, body atoms), six consistent variable renamings, each fact duplicated, and Authorize repeated three times with a Query panel after each call are run on the library; outcome class and all query result sets must equal the canonical presentation's. Thorough adds every pair of such changes.",
-         "Differential oracle between presentations. Policies keep their order (the property fixes it). Scenarios with 4+ items per collection are outside the scope.", "DESIGN.md §4-C12", "ssx"),
- "C13": ("model_checking", "explicit enumeration of all operation histories (add content, authorize/query, reset) up to depth 2-3 on the real authorizer with a differential oracle",
-         "All histories of 2 rounds over 24 contents x 3 actions x 4 tokens (and 3 rounds: over an 8-content sub-alphabet in quick, all 24 in thorough) are executed on one reused authorizer with Reset between rounds; the last round's Authorize outcome, failed checks and Query panel must equal those of a fresh authorizer given only that round's content. Every explored history is a run of the implementation.",
-         "Differential oracle against a fresh authorizer. Histories longer than 3 rounds are outside the bound.", "DESIGN.md §4-C13", "ssx"),
- "C01": ("model_checking", "explicit-state BFS of an attacker (Dolev-Yao) model over envelope edits, every state verified on the real code against a reference chain-validity predicate",
-         "The honest pool (56 library-made tokens: 2 roots x {P,Q}^1..3 x sealed/unsealed) is split by an independent decoder into a component universe; the attacker's single edits (field substitution between blocks and tokens, flipped/truncated/extended fields, block delete/duplicate/insert/swap/truncate, proof replacement incl. seals and signatures computable with held secrets, re-keying under an attacker root, key id) are applied breadth-first to depth 1 on the full pool and depth 2 (quick: sub-pool; thorough: full pool, plus depth 3 with structural third edit) with deduplication on the serialized envelope. Every reached envelope is given to Unmarshal+AuthorizerFor under three roots and compared with the specification's chain walk re-implemented over the independently decoded envelope, in both directions. Plus every single-bit flip, prefix and byte deletion of pool tokens (safety direction).",
-         "Trusted: crypto/ed25519 (unforgeability is assumed, not searched), internal/wire's transcription of the schema. Completeness (valid => accepted) is asserted only for envelopes whose payloads are unmodified library-made blocks.", "DESIGN.md §4-C01", "ssx"),
-}
+CHECKS = {}
+for fn in sorted(os.listdir(os.path.join(ROOT, "scripts", "checks"))):
+    if fn.endswith(".json"):
+        d = json.load(open(os.path.join(ROOT, "scripts", "checks", fn)))
+        CHECKS[fn[:-5]] = (d["level"], d["technique"], d["text"], d["note"], d["design_ref"], d["engine"])
 PENDING = "check not built yet in this revision (work in progress; see DESIGN.md §4 for the planned bounded-exhaustive check)"
 def main():
     ids = [json.loads(l)["id"] for l in open(os.path.join(ROOT, "properties.jsonl"))]
